@@ -204,8 +204,14 @@ def encode_op(op):
 
 def apply_op(g, op, geo=None):
     if op[0] == 'rn': g.rename_blocks(dict(op[1]), fix_blocknames=bool(op[2]))
+    elif op[0] == 'wr': reread(g)                      # a data file is written in between (a checkpoint); nothing is done with it
     elif op[0] == 'ro':
-        if len(op) > 3 and op[3] == 'geo' and geo is not None: g.reorder(geo=geo)          # the lists in op[1], op[2] are the geometry's
+        if len(op) > 3 and op[3] == 'geo-dmplex' and geo is not None:
+            try:
+                geo.block_order = 'dmplex'
+                g.reorder(geo=geo)
+            except Exception: pass            # refused: the grid must be as it was (the signature is compared by the caller)
+        elif len(op) > 3 and op[3] == 'geo' and geo is not None: g.reorder(geo=geo)          # the lists in op[1], op[2] are the geometry's
         else: g.reorder(block_names=list(op[1]) or None, connection_names=[tuple(c) for c in op[2]] or None)
     else: raise RuntimeError(op)
 
@@ -267,6 +273,7 @@ def make_geo(params):
     nx, ny, nz, at, seed, tilt, surf, refine = params[:8]
     at0 = params[8] if len(params) > 8 else None        # built with this atmosphere type, set to `at` through the property at the end
     r = random.Random(seed)
+    if len(params) > 10 and params[10]: return make_poly_geo(r, nz, at, at0, tilt)
     dx = [r.choice([5., 10., 12.5, 20.]) for _ in range(nx)]
     dy = [r.choice([6., 10., 15.]) for _ in range(ny)]
     dz = [r.choice([2., 5., 8.]) for _ in range(nz)]
@@ -285,6 +292,29 @@ def make_geo(params):
     return geo
 
 
+def make_poly_geo(r, nz, at, at0, tilt):
+    """an irregular geometry built node by node: one square, one triangular and one five-sided column"""
+    import mulgrids as M
+    k = r.choice([0.5, 1., 2.])
+    geo = M.mulgrid(type='GENER', convention=0, atmos_type=at if at0 is None else at0)
+    geo.empty()
+    pos = {'  a': (0., 0.), '  b': (100., 0.), '  c': (100., 100.), '  d': (0., 100.), '  e': (r.choice([30., 50., 70.]), 160.),
+           '  f': (200., 0.), '  g': (r.choice([230., 260.]), r.choice([40., 50.])), '  h': (200., 100.)}
+    for name in sorted(pos): geo.add_node(M.node(name, np.array(pos[name]) * k))
+    cols = {' sq': ['  a', '  b', '  c', '  d'], ' tr': ['  d', '  c', '  e'], ' pe': ['  b', '  f', '  g', '  h', '  c']}
+    for name in [' sq', ' tr', ' pe']: geo.add_column(M.column(name, [geo.node[n] for n in cols[name]]))
+    geo.add_connection(M.connection([geo.column[' sq'], geo.column[' tr']]))
+    geo.add_connection(M.connection([geo.column[' sq'], geo.column[' pe']]))
+    geo.add_layers([r.choice([10., 20., 30.]) for _ in range(nz)], 0.)
+    geo.set_default_surface()
+    geo.identify_neighbours()
+    geo.setup_block_name_index()
+    geo.setup_block_connection_name_index()
+    if tilt: geo.gdcx, geo.gdcy = r.choice([0.1, -0.2, 0.05]), r.choice([0., 0.15])
+    if at0 is not None: geo.atmosphere_type = at
+    return geo
+
+
 def random_geo_params(rng, size):
     if size == 'small': nx, ny, nz = rng.randint(1, 3), rng.randint(1, 2), rng.randint(1, 3)
     elif size == 'medium': nx, ny, nz = rng.randint(2, 5), rng.randint(2, 4), rng.randint(1, 3)
@@ -293,7 +323,8 @@ def random_geo_params(rng, size):
     return (nx, ny, nz, at, rng.getrandbits(30), rng.random() < 0.3, rng.random() < 0.3,
             rng.random() < 0.25 and nx * ny >= 4 and size != 'large',
             rng.choice([t for t in (0, 1, 2) if t != at]) if rng.random() < 0.35 else None,      # initial atmosphere type, changed by the setter
-            rng.random() < 0.4)                                                                  # several rock types, some named with digits
+            rng.random() < 0.4,                                                                  # several rock types, some named with digits
+            rng.random() < 0.1)                                                                  # square + triangle + pentagon columns, built node by node
 
 
 ROCK_NAMES = ['    1', '    2', '    3', '    4', ' 2   ', '3    ', '00001', '   12', 'rock1', 'other', 'sand ']
@@ -320,15 +351,37 @@ def build(params):
 LETTERS = 'abcdefghijklmnopqrstuvwxyz'
 
 
-def fresh_name(rng, taken):
+def fresh_name(rng, taken, zero_tail=False):
+    """zero_tail: a name like 'qa105' that TOUGH2 writes as 'qa1 5' (digit, '0', digit at the end; read back unchanged)"""
     while True:
-        n = (rng.choice(['q', 'zz', ' w']) + ''.join(rng.choice(LETTERS) for _ in range(2)))[:3] + rng.choice([' 1', ' 7', '12', '99'])
+        if zero_tail or rng.random() < 0.15:
+            n = rng.choice(['q', 'z', ' ']) + rng.choice(LETTERS) + rng.choice('123456789') + '0' + rng.choice('0123456789')
+        else: n = (rng.choice(['q', 'zz', ' w']) + ''.join(rng.choice(LETTERS) for _ in range(2)))[:3] + rng.choice([' 1', ' 7', '12', '99'])
         if n not in taken: return n
 
 
-def random_op(rng, g, geo, first, prefer_geo=False):
+def write_changes_grid(g):
+    """writing a data file is an observation: the grid in memory must be the same afterwards (None) -- else the first difference"""
+    before = dump(g)
+    reread(g)
+    after = dump(g)
+    if before == after: return None
+    for a, b in zip(before.split(','), after.split(',')):
+        if a != b: return 'after t2data.write the grid in memory has %r where it had %r' % (b[:80], a[:80])
+    return 'after t2data.write the dump of the grid in memory differs in length'
+
+
+def random_op(rng, g, geo, first, prefer_geo=False, dmplex=0.0):
     names = [b.name for b in g.blocklist]
     keys = list(g.connection.keys())
+    if first and geo is not None and rng.random() < dmplex:
+        # geo.block_order = 'dmplex'; g.reorder(geo = geo) -- the library may refuse the ordering (columns that are neither
+        # triangles nor quadrilaterals): then the grid must be left as it was
+        try:
+            geo.block_order = 'dmplex'
+            return ('ro', tuple(geo.block_name_list), tuple(tuple(c) for c in geo.block_connection_name_list), 'geo-dmplex'), 'reorder:geo-dmplex'
+        except Exception:
+            return ('ro', (), (), 'geo-dmplex'), 'reorder:geo-dmplex'
     if first and geo is not None and prefer_geo and rng.random() < 0.6:
         return ('ro', tuple(geo.block_name_list), tuple(tuple(c) for c in geo.block_connection_name_list), 'geo'), 'reorder:geo'
     if rng.random() < 0.55:
@@ -488,18 +541,22 @@ def reorder_rename_worker(args):
         if params[7]: st.sizes['refined(irregular columns)'] += 1
         if params[8] is not None: st.sizes['atmosphere-type-set-by-property(from %d)' % params[8]] += 1
         if params[9]: st.sizes['several-rock-types:%d' % len(g.rocktypelist)] += 1
+        if params[10]: st.sizes['square+triangle+pentagon-columns'] += 1
         prefix = grid_as_fields(g)
         hash_mode = nblk > 24
         show = (lambda s: adler(s)) if hash_mode else (lambda s: s)
         obs = [show(dump(g))]
-        ops = []
+        ops = []                       # the edits (what the model replays)
+        hist = []                      # the edits and the data-file writes in between (what a replay repeats)
         ph = phys(g)
         nops = rng.choice([1, 1, 2, 3, 4])
         broken = False
         first_obj = g.blocklist[0]
         do_file = bool(with_files) and rng.random() < with_files and nblk <= 120
+        if do_file and nblk > 1: nops = max(nops, 3)
         for t in range(nops):
-            op, key = random_op(rng, g, geo, t == 0, prefer_geo=len(params) > 8 and params[8] is not None)
+            op, key = random_op(rng, g, geo, t == 0, prefer_geo=len(params) > 8 and params[8] is not None,
+                                dmplex=0.5 if params[10] else 0.3 if params[7] else 0.04)
             if do_file and t == 0 and nblk > 1:
                 # the written file must not depend on where a block sits in the list: start with a block permutation
                 # that takes the first block (the atmosphere block of an atmosphere-type-0 grid) off position 0
@@ -508,9 +565,15 @@ def reorder_rename_worker(args):
                 while perm[0] == names0[0]: rng.shuffle(perm)
                 cns = op[2] if op[0] == 'ro' else ()
                 op, key = ('ro', tuple(perm), tuple(cns)), ('reorder:reversed-connection' if any(c not in g.connection for c in cns) else 'reorder:permutation')
-            ops.append(op); st.kinds[key] += 1
+            if do_file and t == 1 and nblk > 1:
+                # names that the file spells differently (' a105' is written ' a1 5'), given to one or two blocks before the checkpoint
+                taken = set(g.block); m = []
+                for x in rng.sample([b.name for b in g.blocklist], min(nblk, rng.randint(1, 2))):
+                    v = fresh_name(rng, taken, zero_tail=True); taken.add(v); m.append((x, v))
+                op, key = ('rn', tuple(m), rng.randint(0, 1)), 'rename_blocks:one-to-one-map'
+            ops.append(op); hist.append(op); st.kinds[key] += 1
             if op[0] == 'ro': st.reversed_conns += sum(1 for c in op[2] if c not in g.connection)
-            case = {'geo': list(params), 'ops': [list(o) for o in ops]}
+            case = {'geo': list(params), 'ops': [list(o) for o in hist]}
             try: apply_op(g, op, geo)
             except Exception as e:
                 obs.append('E:' + exn_name(e)); st.errors[exn_name(e)] += 1
@@ -526,18 +589,31 @@ def reorder_rename_worker(args):
                 broken = True
                 st.failure(key if op[0] == 'ro' else 'rename_blocks:one-to-one-map', case, d, REQ_RO if op[0] == 'ro' else REQ_RN)
             ph = got if broken else want
+            if do_file and not broken and t >= 1 and t < nops - 1 and rng.random() < 0.6:
+                # a checkpoint: the data file is written in the middle of the sequence and the edits go on
+                hist.append(('wr',)); st.kinds['write:checkpoint-between-edits'] += 1
+                try: d = write_changes_grid(g)
+                except Exception as e:
+                    d = None; st.skipped['file-round-trip-raised:' + exn_name(e)] += 1
+                if d:
+                    broken = True
+                    st.failure('write:changes-the-grid-in-memory', {'geo': list(params), 'ops': [list(o) for o in hist]}, d, 'writing the data file leaves the grid as it is')
         if do_file and not broken:
             st.kinds['write-read:atmos_type:%d%s' % (params[3], ':first-block-moved' if g.blocklist[0] is not first_obj else '')] += 1
             try:
+                before = dump(g)
                 d = file_roundtrip_diff(g, ph); st.filerounds += 1
+                if not d and dump(g) != before:
+                    st.failure('write:changes-the-grid-in-memory', {'geo': list(params), 'ops': [list(o) for o in hist] + [['wr']]}, 'the dump of the grid in memory differs after t2data.write',
+                               'writing the data file leaves the grid as it is')
             except Exception as e:
                 d = None; st.skipped['file-round-trip-raised:' + exn_name(e)] += 1
-            if d: st.failure('write-read:after-reorder-rename', {'geo': list(params), 'ops': [list(o) for o in ops]}, d,
+            if d: st.failure('write-read:after-reorder-rename', {'geo': list(params), 'ops': [list(o) for o in hist]}, d,
                              'the signature survives t2data.write / t2data(filename) to file precision')
         line = '%s%d\t' % ('H' if hash_mode else 'F', len(prefix) - 1) + '\t'.join(prefix + [encode_op(o) for o in ops])
         st.cases += 1
         st.distinct.append(zlib.crc32(line.encode()) ^ (len(line) << 32))
-        lines.append(line); cases.append({'geo': list(params), 'ops': [list(o) for o in ops]}); expects.append('|'.join(obs))
+        lines.append(line); cases.append({'geo': list(params), 'ops': [list(o) for o in hist]}); expects.append('|'.join(obs))
         if len(st.samples) < 2 and nblk <= 6:
             st.samples.append({'geometry(nx,ny,nz,atmos,seed,tilt,surface,refine)': list(params), 'blocks': nblk,
                                'ops': [list(o) for o in ops], 'dump_after_last_step': dump(g)[:600]})
@@ -576,7 +652,7 @@ def minc_worker(args):
     for ci in range(ncases):
         if st.failn.get('minc:does-not-return'): break          # one hanging call per worker is enough
         params = random_geo_params(rng, rng.choice(sizes))
-        params = params[:7] + (False, params[8], False)
+        params = params[:7] + (False, params[8], False, params[10])
         try: geo, g = build(params)
         except Exception as e:
             st.skipped['geometry-construction-failed:' + exn_name(e)] += 1; continue
@@ -592,12 +668,21 @@ def minc_worker(args):
         names = [b.name for b in g.blocklist]
         sel = None
         style = 'all-blocks'
+        foreign = False
         if rng.random() < 0.55 and len(names) > 1:
             sel = rng.sample(names, rng.randint(1, len(names))); style = 'partial'
             if rng.random() < 0.08:
                 sel.insert(rng.randrange(len(sel) + 1), rng.choice(sel)); style = 'partial-with-a-repeated-name'
-            elif rng.random() < 0.3:
-                sel = [g.block[n] for n in sel]; style = 'partial(block objects)'          # block objects are accepted too
+            elif rng.random() < 0.4:
+                if rng.random() < 0.5:
+                    sel = [g.block[n] for n in sel]; style = 'partial(block objects)'          # block objects are accepted too
+                else:
+                    # equal-named block objects of another grid made from the same geometry: the selection is by name
+                    twin = build(params)[1]
+                    sel = [twin.block[n] for n in sel]; style = 'partial(block objects of an identical second grid)'; foreign = True
+        elif rng.random() < 0.12:
+            twin = build(params)[1]
+            sel = list(twin.blocklist); style = 'all-blocks(block objects of an identical second grid)'; foreign = True
         atmos_volume = rng.choice([1.e25, 1.e25, 1.e25, 300., 1000.])
         how = rng.choice(['omitted', 'omitted', 'None', 'empty-list', 'shared-empty-list']) if sel is None else 'given'
         if rng.random() < 0.3:                                      # a rock type that is not the default one
@@ -609,7 +694,7 @@ def minc_worker(args):
         else: case_rock = None
         case = {'geo': list(params), 'volume_fractions': fr, 'spacing': spacing, 'num_fracture_planes': nplanes,
                 'blocks': None if sel is None else [b if isinstance(b, str) else b.name for b in sel],
-                'blocks_as_objects': bool(sel) and not isinstance(sel[0], str), 'atmos_volume': atmos_volume, 'rock': case_rock, 'blocks_arg': how}
+                'blocks_as_objects': bool(sel) and not isinstance(sel[0], str), 'atmos_volume': atmos_volume, 'rock': case_rock, 'blocks_arg': how, 'blocks_foreign': foreign}
         if how in priors: case['prior'] = priors[how]          # the first call of this process that asked for the default selection the same way
         elif how in ('omitted', 'shared-empty-list'): priors[how] = dict(case)
         try:
@@ -806,7 +891,7 @@ def embed_worker(args):
     for ci in range(ncases):
         if st.failn.get('embed:does-not-return'): break
         params = random_geo_params(rng, rng.choice(sizes))
-        params = params[:7] + (False, params[8], False)
+        params = params[:7] + (False, params[8], False, params[10])
         try: geo, g = build(params)
         except Exception as e:
             st.skipped['geometry-construction-failed:' + exn_name(e)] += 1; continue
@@ -894,14 +979,16 @@ def sweep(ctx, exe, n_rr, n_minc, n_embed, sizes, with_files, label=''):
 def run(ctx):
     ctx.rule = ('grids built by the real t2grid().fromgeo from generated geometries (rectangular with uneven spacings, all three atmosphere types; '
                 'irregular variants: tilted gravity (gdcx/gdcy), uneven surface (truncated columns), locally refined columns with triangular transitions); '
-                'in 35% the geometry is built with another atmosphere type and reaches its own through the atmosphere_type property as the last edit; in 40% of the reorder/rename grids 1-3 more rock types with '
+                '10% are built node by node with a square, a triangular and a five-sided column; in 35% the geometry is built with another atmosphere type and reaches its own through the atmosphere_type property as the last edit; in 40% of the reorder/rename grids 1-3 more rock types with '
                 'five-character names (digit names such as \'    2\', \' 2   \', \'00001\' included) are spread over the blocks; '
                 '(1) 1-4 random calls of reorder (random permutation of blocks and/or connections, a random 0/20/50/100% of the connections listed with their blocks swapped, '
-                'or g.reorder(geo=geo) as first call -- 60% of the first calls when the atmosphere type was set by the property) and rename_blocks (fresh names, all blocks, swaps, cycles, chains; fix_blocknames on and off), each step compared with the '
-                'extracted model (payload dump) and with the physical signature before; a sample (15% quick, 25% thorough; all three atmosphere types) starts with a block permutation that takes the first block '
+                'or g.reorder(geo=geo) as first call, also after geo.block_order = \'dmplex\' (50% of the first calls on pentagon geometries, 30% on refined ones; a refusal by exception must leave the grid alone) -- 60% of the first calls when the atmosphere type was set by the property) and rename_blocks (fresh names, all blocks, swaps, cycles, chains; fix_blocknames on and off), each step compared with the '
+                'extracted model (payload dump) and with the physical signature before; a sample (15% quick, 25% thorough; all three atmosphere types; at least three edits) starts with a block permutation that takes the first block '
                 '(the atmosphere block of a type-0 grid) off position 0 and ends with t2data.write / t2data(filename): the FULL signature (volume, rock type, CENTRE of every block; area, direction, own '
-                'distances, oriented cosine of every pair) must come back to file precision; '
-                '(2) minc with 2-6 volume fractions (summing to less than, exactly and more than 1; integers and floats), 1-3 fracture-plane sets, assorted spacings, all blocks (blocks omitted / None / a fresh [] / one [] object re-used by every such call of the worker process, so that an earlier call of the same process precedes most of them) or a random selection (names or block '
+                'distances, oriented cosine of every pair) must come back to file precision; its second edit renames one or two blocks to names the file spells differently (\'qa105\' is written \'qa1 5\'), data files are also written BETWEEN the '
+                'edits (checkpoints, 60% after each later edit) and every write must leave the grid in memory as it is; '
+                '(2) minc with 2-6 volume fractions (summing to less than, exactly and more than 1; integers and floats), 1-3 fracture-plane sets, assorted spacings, all blocks (blocks omitted / None / a fresh [] / one [] object re-used by every such call of the worker process, so that an earlier call of the same process precedes most of them) or a random selection (names, the grid\'s block objects, or equal-named block objects of an identical second grid -- also as full selection; '
+                'the selection is by name) (names or block '
                 'objects, sometimes with a repeated name: refusal), three atmos_volume cut-offs, a non-default rock type in 30%: the whole grid afterwards is '
                 'compared with the extracted MincModel and the three MINC clauses are evaluated on the real grid; a sample is written to a data file and read back; '
                 '(3) embed of a small rectangular sub-grid into a random host block (12% with colliding block names, some hosts too small, some atmosphere hosts); the connection handed to embed holds the grid\'s own '
@@ -949,6 +1036,10 @@ def replay(ctx, data):
     if kind == 'rr':
         ph = phys(g)
         for o in case['ops']:
+            if o[0] == 'wr':
+                d = write_changes_grid(g)
+                if d: print('  ' + d); return True
+                continue
             op = (o[0], tuple(tuple(x) for x in o[1]), o[2]) if o[0] == 'rn' else (o[0], tuple(o[1]), tuple(tuple(c) for c in o[2])) + tuple(o[3:])
             try: apply_op(g, op, geo)
             except Exception as e:
@@ -964,7 +1055,9 @@ def replay(ctx, data):
         print('  physics unchanged'); return False
     if kind == 'minc':
         sel = case['blocks']
-        if sel is not None and case.get('blocks_as_objects'): sel = [g.block[n] for n in sel]
+        if sel is not None and case.get('blocks_as_objects'):
+            src = build(params)[1] if case.get('blocks_foreign') else g
+            sel = [src.block[n] for n in sel]
         if case.get('prior'):
             # the same process made an earlier minc call asking for the default selection the same way: repeat it first
             pc = case['prior']
